@@ -36,7 +36,7 @@ func (G *gen) census() error {
 	if dump := os.Getenv("C12_CENSUS_DUMP"); dump != "" { // maintenance aid: current rows for derefs_classify.py
 		var sb strings.Builder
 		for _, row := range cs.Rows {
-			fmt.Fprintf(&sb, "%s\t%s\t%d\n", row.Fn, row.Field, row.Count)
+			fmt.Fprintf(&sb, "%s\t%s\t%s\t%d\t%d\n", row.Fn, row.Field, row.Root, row.Count, row.Guards)
 		}
 		os.WriteFile(dump, []byte(sb.String()), 0644)
 	}
@@ -48,11 +48,11 @@ func (G *gen) census() error {
 	}
 	G.c.Line(fmt.Sprintf("cap %s %s", cs.Cap, gate), "ok")
 	for _, row := range cs.Rows {
-		cls, want := "unclassified", 0
-		if e, ok := exp[[2]string{row.Fn, row.Field}]; ok {
-			cls, want = e.Class, e.Count
+		cls, want, wantG := "unclassified", 0, 0
+		if e, ok := exp[[3]string{row.Fn, row.Field, row.Root}]; ok {
+			cls, want, wantG = e.Class, e.Count, e.Guards
 		}
-		G.c.Line(fmt.Sprintf("site %s %s %d %d %s", row.Fn, row.Field, row.Count, want, cls), "ok")
+		G.c.Line(fmt.Sprintf("site %s %s %s %d %d %d %d %s", row.Fn, row.Field, row.Root, row.Count, want, row.Guards, wantG, cls), "ok")
 		G.c.Hit("census:" + cls)
 	}
 	G.c.Line(fmt.Sprintf("census-end %d", len(cs.Rows)), "ok")
@@ -66,7 +66,7 @@ func (G *gen) census() error {
 	return nil
 }
 
-var stateOrder = []string{"empty", "populated", "ceremony", "epoch1"}
+var stateOrder = []string{"empty", "populated", "ceremony", "epoch1", "populated+emptyhead", "epoch1+emptyhead"}
 
 func runGenerated(c *hx.Ctx) error {
 	G := &gen{c: c, r: rand.New(rand.NewSource(c.Seed*104729 + 11)), g: newGuard(caseTimeout()), seed: c.Seed}
@@ -109,12 +109,15 @@ func runGenerated(c *hx.Ctx) error {
 		if i >= 2 {
 			b = txBudget / 2
 		}
+		if i >= 4 {
+			b = txBudget / 6 // empty-head states: the block / proposal / header streams are the point
+		}
 		timed("txs", func() {
 			for rep := 0; rep < c.Scale(1, 3); rep++ { // thorough: every (type, recipient, payload) combination, three draws of the rest
 				G.txStream(fx, b)
 			}
 		})
-		if kind == "populated" || c.Tier != "quick" {
+		if kind == "populated" || (c.Tier != "quick" && i < 4) {
 			timed("fuzz", func() { G.fuzz(fx, c.Scale(20000, 300000), c.Scale(28000, 450000)) })
 		}
 		fx.close()
